@@ -347,6 +347,7 @@ class StmtMixin:
         mode_b = path.branch(path.fresh("loop_step", z3.BoolSort()))
         if mode_b:
             k = path.fresh("k", IntS)
+            path.loop_k[spec.name] = k
             spec.havoc(self, path, env, k)
             path.assume(z3.And(k >= 0, k < n))
             path.assume(spec.inv(self, path, env, k))
